@@ -365,9 +365,15 @@ def processLine (acc : Acc) (line : String) : Acc :=
           (if m.st.mn != implPost.st.mn then ["nonce"] else []) ++
           (match m.tok with | some t => if tokEq t implPost.evm then [] else ["token"] | none => []) ++
           (if m.ok == implOk && m.evmBad && akv.get "evm" != "?" then ["evm"] else [])
+        -- what takes a world out of the scope of C03 (`HOpOK`): an accepted deviation, a forged receipt, a
+        -- self-destruct.  A forged receipt or an accepted deviation is itself already outside the honest world (the model's
+        -- own transition fails `c03_external` on a bare hook: last example of Props/C03Monitors.lean), so the transition
+        -- that taints is evaluated as unclean; a self-destruct is evaluated as clean (`c03_*_sd_monitor`) and taints afterwards.
+        let taintNow := implOk && (dev != "-" || (match op with | .k (.hook _) => true | _ => false))
+        let taint := taintNow || (implOk && (match op with | .sd _ => true | _ => false))
         let tr : Tr := { env := acc.env, cfg := acc.cfg, pre := acc.cur, op := op, ok := implOk, resp := implResp,
                          post := implPost, answers := rec_.map (·.2), honest := dev == "-",
-                         lookups := parseLk lk, clean := acc.clean, prev := acc.prev }
+                         lookups := parseLk lk, clean := acc.clean && !taintNow, prev := acc.prev }
         let viol := monitors.filterMap (fun (pid, name, f) => if f tr then none else some s!"{seq} V {pid} {name}")
         let tag := s!"{branchOf acc.cur.st acc.cur.evm op}/{if implOk then "ok" else "rej"}/{devClass dev}{if later then "/later" else ""}"
         let l :=
@@ -380,13 +386,6 @@ def processLine (acc : Acc) (line : String) : Acc :=
                (if comps.contains "nonce" then s!"modelMn={m.st.mn} implMn={implPost.st.mn} " else "") ++
                (if comps.contains "token" then (match m.tok with | some t => tokDiff t implPost.evm | none => "") ++ " " else "") ++
                (if comps.contains "evm" then m.evmNote else "")
-        -- what takes a world out of the scope of C03 (`HOpOK`): an accepted deviation, a forged receipt, a
-        -- self-destruct
-        let taint := implOk && (dev != "-" ||
-          (match op with
-           | .k (.hook _) => true
-           | .sd _ => true
-           | _ => false))
         { acc with cur := implPost, lk := lk, clean := acc.clean && !taint, prev := some (op, implOk, implResp, acc.cur, dev == "-"),
                    out := (acc.out.push l) ++ viol.toArray }
     | _ => { acc with out := acc.out.push "? E malformed" }
